@@ -42,7 +42,7 @@ spec fn trimmed_range_ok(v: Violation, b: Block, line: Seq<char>, i: int) -> boo
 
 impl LinePatternValidator {
 
-//@unit id=V3 file=src/validators/line_pattern.rs fn=<<impl ValidatorSync for LinePatternValidator::validate>> slice_from=<<let re = Regex::new(pattern)>> slice_through=<<for (line_number, line) in>>
+//@unit id=V3 file=src/validators/line_pattern.rs fn=<<impl ValidatorSync for LinePatternValidator::validate>> slice_from=<<let re = Regex::new(pattern)>> slice_to_block_end=1
 //@wrapper
 fn v3_loop<'a>(
     block_with_context: &'a BlockWithContext,
